@@ -211,6 +211,21 @@ CHECKS = {
         note="Two open findings (KF-C17-1 '?', KF-C17-2 '*/') are matched by TLA+ signatures; the dep5 side of the language "
              "comparison is the Debian specification as transcribed in Dep5Tok.",
         ref="5/C17"),
+    "C15": dict(
+        technique="TLA+ model of the whole tool over a file system of project + outside sentinel (Reuse.tla with Footprint.tla: "
+                  "OutsideFootprintUntouched, SentinelNeverTouched, ReadersChangeNothing) model-checked by TLC; every "
+                  "command sequence of the model replayed on a real Git work tree; TLC trace validation of metadata snapshots "
+                  "against the documented footprint",
+        text="All sequences of one command and (quick: a seeded sample of) two commands - thorough: sampled triples - over "
+             "lint in four formats, lint-file, spdx, spdx -o, supported-licenses, --help, --version, annotate on files, a "
+             "binary and a symlink leaving the project, annotate -r on the root, on directories with look-alike siblings and "
+             "on a symlinked directory, convert-dep5 and download (also --source onto an existing file) run on a tree with "
+             "an outside sentinel, an ignored file, LICENSES/, .reuse/dep5 and a read-only file; TLC checks that everything "
+             "that changed (content, mode, mtime, link target) lies in the command's documented footprint and that nothing "
+             "outside the project changed.",
+        note="The covered set for `annotate -r` is the tool's own lint listing before the command (C03's subject); .git/ is "
+             "excluded from snapshots; the network is a stub that always succeeds.",
+        ref="5/C15"),
     "C03": dict(
         technique="TLA+ requirement CoverReq (three-valued: must / must not / unpinned) vs walk-with-pruning mechanism "
                   "model-checked by TLC; TLC-enumerated directory-context x name-class x type x VCS-wish nodes built as "
